@@ -284,7 +284,8 @@ def _gen_source_spec(rng, name, swb, kinds):
              "generator": {"rated": rated, "speed": 1000.0, "curve": comps.gen_accepted_curve(rng, rated)},
              "engine": gen_engine_spec(rng, rated * 1.1)}
         if rng.random() < 0.25:
-            s["rectifier"] = {"rated": rated, "curve": comps.gen_accepted_curve(rng, rated)}
+            r_rect = float(np.round(rated * float(rng.choice([1.0, 1.0, 1.2, 1.5, 2.0])), 1))      # a rectifier is often rated above its generator
+            s["rectifier"] = {"rated": r_rect, "curve": comps.gen_accepted_curve(rng, r_rect)}
         s["rated"] = rated
         return s
     if k == "fuel_cell_system":
